@@ -7,7 +7,7 @@ import (
 	"net"
 	"time"
 
-	"bufio"
+	"encoding/binary"
 	"io"
 	"io/ioutil"
 )
@@ -23,8 +23,11 @@ type Connection struct {
 	connection net.Conn
 	context    Context
 
-	// Used to buffer reads
-	readBuffer io.Reader
+	// Received bytes which are not decrypted yet (incomplete frame or following frames)
+	encrypted []byte
+
+	// Decrypted bytes which are not read yet
+	decrypted bytes.Buffer
 }
 
 // NewConnection returns a hap connection.
@@ -62,30 +65,55 @@ func (con *Connection) EncryptedWrite(b []byte) (int, error) {
 
 // DecryptedRead reads and decrypts bytes from the connection.
 // The method returns the number of read bytes and an error when reading failed.
+//
+// Encrypted bytes are collected until a frame has arrived completely; the frame is
+// decrypted at once and its content is handed out in as many calls as the size of b
+// requires. Bytes which belong to following frames (or an incomplete frame when a read
+// deadline expires) are kept for the next call.
 func (con *Connection) DecryptedRead(b []byte) (int, error) {
-	if con.readBuffer == nil {
-		buffered := bufio.NewReader(con.connection)
-		decrypted, err := con.getDecrypter().Decrypt(buffered)
-		if err != nil {
+	for con.decrypted.Len() == 0 {
+		if frame := con.nextFrame(); frame != nil {
+			decrypted, err := con.getDecrypter().Decrypt(bytes.NewReader(frame))
+			if err != nil {
+				log.Debug.Println("Decryption failed:", err)
+				con.connection.Close()
+				return 0, err
+			}
+			io.Copy(&con.decrypted, decrypted)
+			continue
+		}
+
+		var buf [4096]byte
+		n, err := con.connection.Read(buf[:])
+		con.encrypted = append(con.encrypted, buf[:n]...)
+		if err != nil && n == 0 {
 			if neterr, ok := err.(net.Error); ok && neterr.Timeout() {
 				// Ignore timeout error #77
-			} else {
-				log.Debug.Println("Decryption failed:", err)
-				err = con.connection.Close()
+			} else if err != io.EOF {
+				log.Debug.Println("Reading failed:", err)
+				con.connection.Close()
 			}
 			return 0, err
 		}
-
-		con.readBuffer = decrypted
 	}
 
-	n, err := con.readBuffer.Read(b)
+	return con.decrypted.Read(b)
+}
 
-	if n < len(b) || err == io.EOF {
-		con.readBuffer = nil
+// nextFrame removes the first frame from the received bytes and returns it.
+// It returns nil when the frame is not complete yet.
+func (con *Connection) nextFrame() []byte {
+	if len(con.encrypted) < 2 {
+		return nil
 	}
-
-	return n, err
+	// [ length (2 bytes)] [ data ] [ auth (16 bytes)]
+	size := 2 + int(binary.LittleEndian.Uint16(con.encrypted)) + 16
+	if len(con.encrypted) < size {
+		return nil
+	}
+	frame := con.encrypted[:size]
+	con.encrypted = con.encrypted[size:]
+	return frame
 }
 
 // Write writes bytes to the connection.
